@@ -161,7 +161,7 @@ UNIT_TRUSTED["packet_nlri"] = [
 
 # minimum number of functions that must produce obligations / of must-fail twins that must run
 FLOORS = {"daemon_fsm": 30, "daemon_gr": 4, "daemon_peer_tx": 9, "table_cmp": 20, "packet_validate": 1, "packet_parse": 1, "table_rpki": 5, "table_policy": 13, "daemon_export": 11, "packet_bmp": 6, "packet_mrt": 8, "packet_aspath": 11, "packet_encode": 4, "packet_nlri": 22, "daemon_restart": 7, "packet_negotiate": 1, "table_rslocal": 1, "daemon_peer_cfg": 2, "daemon_gr_neg": 2, "daemon_mrt_conv": 3}
-TWIN_FLOORS = {"daemon_fsm": 8, "daemon_gr": 3, "daemon_peer_tx": 2, "table_cmp": 4, "packet_validate": 1, "packet_parse": 1, "table_rpki": 1, "table_policy": 1, "daemon_export": 1, "packet_bmp": 1, "packet_mrt": 1, "packet_aspath": 1, "packet_encode": 1, "packet_nlri": 1, "daemon_restart": 1, "packet_negotiate": 0, "table_rslocal": 0, "daemon_peer_cfg": 0, "daemon_gr_neg": 0, "daemon_mrt_conv": 0}
+TWIN_FLOORS = {"daemon_fsm": 8, "daemon_gr": 3, "daemon_peer_tx": 2, "table_cmp": 4, "packet_validate": 1, "packet_parse": 1, "table_rpki": 1, "table_policy": 1, "daemon_export": 1, "packet_bmp": 1, "packet_mrt": 1, "packet_aspath": 1, "packet_encode": 2, "packet_nlri": 1, "daemon_restart": 1, "packet_negotiate": 0, "table_rslocal": 0, "daemon_peer_cfg": 0, "daemon_gr_neg": 0, "daemon_mrt_conv": 0}
 
 PLAN = {
     "C01": {"verus": ["daemon_peer_tx", "daemon_export"], "level": "proof",
